@@ -8,7 +8,8 @@
 (*   - an involutive table (complement; case toggle of the 4-bit codec)    *)
 (*     lifts to an involution on sequences, an idempotent table (mask /    *)
 (*     unmask of the 5-bit codec) to an idempotent operation;              *)
-(*   - hence reverse-complement is an involution.                          *)
+(*   - hence reverse-complement is an involution;                          *)
+(*   - a per-symbol encoding with a left inverse round-trips (C01, C18).   *)
 (* Rev and Map are SeqOps.RevSeq / CompSeq / MaskSeq with n = Len(s); what *)
 (* the TABLES satisfy (comp o comp = id, ...) is finite and checked by TLC *)
 (* on every codec (MC_C05, MC_C07, MC_C20).                                *)
@@ -80,6 +81,17 @@ THEOREM MapsCommute ==
 <1> TAKE s \in Seqs
 <1> QED
   BY DEF Map, Seqs
+
+\* a per-symbol encoding with a left inverse (display then parse; encode then decode) round-trips on
+\* sequences of any length: the lifting step of C01 / C18 (the per-symbol law itself is finite: MC_C05)
+THEOREM MapLeftInverse ==
+    ASSUME NEW Chr, NEW f \in [Sym -> Chr], NEW g \in [Chr -> Sym], \A x \in Sym : g[f[x]] = x
+    PROVE  \A s \in Seqs : [i \in 1 .. n |-> g[f[s[i]]]] = s
+<1> TAKE s \in Seqs
+<1>1. [i \in 1 .. n |-> g[f[s[i]]]] = [i \in 1 .. n |-> s[i]]
+  BY DEF Seqs
+<1> QED
+  BY <1>1 DEF Seqs
 
 RevComp(f, s) == Rev(Map(f, s))
 
